@@ -156,7 +156,7 @@ for n, props, sym in [
 CM = ("kani", "fmt", "memchr")
 H("fastrace", "collector::id", "c12_encode_shape", ["C12"], sym="trace id (128 bits), span id (64), sampled, hex position", bound="all 2^193 contexts", models=CM, unwind=None, cap_s=1500, mem_gb=16)
 H("fastrace", "collector::id", "c12_decode_ascii_le4", ["C12"], sym="every ASCII string of length <= 4", bound="input length <= 4", models=CM)
-H("fastrace", "collector::id", "c12_decode_fields_112", ["C12"], sym="00-H-H-HH with 4 arbitrary ASCII bytes", bound="field lengths 1,1,2", models=CM, cap_s=1500, mem_gb=16)
+H("fastrace", "collector::id", "c12_decode_fields_112", ["C12"], sym="00-H-H-HH with 4 arbitrary ASCII bytes", bound="field lengths 1,1,2", models=CM, cap_s=2400, mem_gb=16, tier="thorough")
 H("fastrace", "collector::id", "c12_decode_fields_222", ["C12"], sym="00-HH-HH-HH with 6 arbitrary ASCII bytes", bound="field lengths 2,2,2", models=CM, cap_s=2400, mem_gb=30, tier="thorough")
 H("fastrace", "collector::id", "c12_id_display", ["C12"], sym="all trace ids and span ids, digit position", bound="all values", models=CM)
 H("fastrace", "collector::id", "c12_id_fromstr_short", ["C12"], sym="every ASCII string of length <= 3", bound="input length <= 3", models=CM)
@@ -188,8 +188,6 @@ for n, sym, kw in [
     ("twin_generic_method_noparent", "array, index, Option<u8> (shapes: generic method with lifetime + short_name; properties)", {}),
     ("twin_async_noparent", "a:u8 (shape: async fn awaiting a once-pending future)", dict(tier="thorough", mem_gb=30, cap_s=2400)),
     ("twin_async_enter_on_poll_noparent", "a:u8 (shape: async fn + enter_on_poll)", {}),
-    ("twin_sync_parent_default_name", "a:u8, b:u8, parent id", dict(tier="thorough", mem_gb=30, cap_s=2400)),
-    ("twin_sync_parent_configured", "Option<u8>, parent id", dict(tier="thorough", mem_gb=30, cap_s=2400)),
 ]:
     H("harness-crate", "twins", n, ["C15"], sym=sym, bound="6-shape corpus of annotated functions with hand-written twins; all argument values", models=SPM, **kw)
 
